@@ -155,6 +155,17 @@ func runScale(m map[string]any) Result {
 		}
 		prev = x.dur
 	}
+	if flat, _ := m["flat"].(bool); flat {
+		// the syntactic nesting of this family does not grow with n: a text of
+		// 300000 repetitions (~2 MB) must still compile
+		if e, c := doCompile(text(300000)); c.panicked {
+			r := fail("panic", c.out, fmt.Sprintf("family %s, 300000 repetitions: %s", family, firstLines(c.stack, 12)))
+			r.Site = c.site
+			return r
+		} else if e == nil && stable {
+			return fail("rejects", c.out, fmt.Sprintf("family %s: a text of 300000 flat repetitions was rejected: %s", family, c.errText))
+		}
+	}
 	deep := 100000
 	if v, err := strconv.Atoi(os.Getenv("VERIF_DEEP")); err == nil && v > 0 {
 		deep = v
